@@ -448,6 +448,31 @@ func c19SizeSweep(c *mc.Ctx) {
 			copies = append(copies, strings.Clone(gi.A), strings.Clone(gi.B))
 			return gi, ni, ok
 		}
+		// the string-length dimension (the caller's buffer is overwritten before the comparison, so a
+		// result that is only a view of it differs from the plain twin)
+		lengthSweep := func() bool {
+			for _, l := range ref.SweepLengths(c.Tier, true) {
+				if l > 70000 {
+					continue
+				}
+				c.NonTrivialKey(fmt.Sprintf("len%d/%d", l, len(returned)))
+				s := strings.Repeat("L", l) + fmt.Sprint(l)
+				if _, _, ok := decode(s, s[:l], true); !ok {
+					return false
+				}
+				if _, _, ok := decode(s, "", false); !ok { // repeated: now served from the table
+					return false
+				}
+			}
+			return true
+		}
+		if !lengthSweep() {
+			return
+		}
+		defer func() {
+			// and once more against the grown table
+			lengthSweep()
+		}()
 		for i := 0; i < n; i++ {
 			if c.Expired() {
 				c.Note(fmt.Sprintf("table-size sweep stopped at size %d", i))
